@@ -169,17 +169,17 @@ class UdpInverterProtocol(InverterProtocol, asyncio.DatagramProtocol):
             logger.debug("Response already handled: %s", data.hex())
         except RequestRejectedException as ex:
             logger.debug("Received exception response: %s", data.hex())
-            self._retry = 0
             if self.response_future and not self.response_future.done():
+                self._retry = 0
                 self.response_future.set_exception(ex)
             self._close_transport()
 
     def error_received(self, exc: Exception) -> None:
         """On error received"""
         logger.debug("Received error: %s", exc)
-        self._retry = 0
         try:
             self.response_future.set_exception(exc)
+            self._retry = 0
         except asyncio.InvalidStateError:
             logger.debug("No request in progress, error ignored: %s", exc)
         self._close_transport()
@@ -220,6 +220,8 @@ class UdpInverterProtocol(InverterProtocol, asyncio.DatagramProtocol):
         else:
             logger.debug("Sending: %s", self.command)
         # arm the timer first: a send error is reported synchronously (error_received) and cancels it again
+        if self._timer:
+            self._timer.cancel()
         self._timer = asyncio.get_running_loop().call_later(self.timeout, self._timeout_mechanism)
         self._transport.sendto(payload)
 
@@ -308,8 +310,8 @@ class TcpInverterProtocol(InverterProtocol, asyncio.Protocol):
                 self._retry = 0
             else:
                 logger.debug("Received invalid response: %s", data.hex())
-                self._retry = 0
                 self.response_future.set_exception(RequestRejectedException())
+                self._retry = 0
                 self._close_transport()
         except PartialResponseException as ex:
             logger.debug("Received response fragment (%d of %d): %s", ex.length, ex.expected, data.hex())
@@ -320,17 +322,17 @@ class TcpInverterProtocol(InverterProtocol, asyncio.Protocol):
             logger.debug("Response already handled: %s", data.hex())
         except RequestRejectedException as ex:
             logger.debug("Received exception response: %s", data.hex())
-            self._retry = 0
             if self.response_future and not self.response_future.done():
+                self._retry = 0
                 self.response_future.set_exception(ex)
             # self._close_transport()
 
     def error_received(self, exc: Exception) -> None:
         """On error received"""
         logger.debug("Received error: %s", exc)
-        self._retry = 0
         try:
             self.response_future.set_exception(exc)
+            self._retry = 0
         except asyncio.InvalidStateError:
             logger.debug("No request in progress, error ignored: %s", exc)
         self._close_transport()
@@ -378,6 +380,8 @@ class TcpInverterProtocol(InverterProtocol, asyncio.Protocol):
         else:
             logger.debug("Sending: %s", self.command)
         self._transport.write(payload)
+        if self._timer:
+            self._timer.cancel()
         self._timer = asyncio.get_running_loop().call_later(self.timeout, self._timeout_mechanism)
 
     def _timeout_mechanism(self) -> None:
